@@ -853,6 +853,96 @@ async def kernel_timeout_case(ctx, seed: int) -> None:
                                               f"received {len(received)} of {len(''.join(calls).encode())} bytes", case)
 
 
+async def blocked_write_disconnect_case(ctx, ending: str, seed: int) -> None:
+    """A write() is stuck in back-pressure (the peer does not read), ANOTHER task calls disconnect(), and then the peer
+    resets the connection / starts reading / closes.  Whatever happens to the pending write, it ends with a transport
+    error or returns - never with another exception - and disconnect absorbs the OS-level error."""
+    from aiomysensors.transport.tcp import TCPTransport
+
+    case = {"engine": "blocked-write-disconnect", "ending": ending, "seed": seed}
+    release = asyncio.Event()
+    peers: list = []
+
+    async def handler(reader, writer) -> None:
+        peers.append(writer)
+        try:
+            await release.wait()
+            if ending == "peer-resets":
+                sock = writer.get_extra_info("socket")
+                sock.setsockopt(socket.SOL_SOCKET, socket.SO_LINGER, struct.pack("ii", 1, 0))
+                writer.transport.abort()
+                return
+            if ending == "peer-reads":
+                while await reader.read(65536):
+                    pass
+        except OSError:
+            pass
+        finally:
+            writer.close()
+
+    server = await asyncio.start_server(handler, "127.0.0.1", 0)
+    server.sockets[0].setsockopt(socket.SOL_SOCKET, socket.SO_RCVBUF, 4096)
+    transport = TCPTransport("127.0.0.1", server.sockets[0].getsockname()[1])
+    outcomes: dict = {}
+    try:
+        await transport.connect()
+        transport.writer.get_extra_info("socket").setsockopt(socket.SOL_SOCKET, socket.SO_SNDBUF, 4096)
+
+        async def writer_task() -> None:
+            try:
+                for i in range(5000):
+                    await transport.write(f"{i % 250};0;1;0;2;" + "z" * 2000 + "\n")
+                    outcomes["lines"] = i + 1
+                outcomes["write"] = "all written"
+            except Exception as exc:  # noqa: BLE001
+                outcomes["write"] = exc
+
+        writing = asyncio.ensure_future(writer_task())
+        blocked = 0
+        for _ in range(1500):  # until the writer has completed no further write() for 15 consecutive checks (stability)
+            before = outcomes.get("lines", 0)
+            await asyncio.sleep(0.01)
+            blocked = blocked + 1 if (outcomes.get("lines", 0) == before and before > 0 and not writing.done()) else 0
+            if blocked >= 15:
+                break
+        outcomes["blocked"] = blocked >= 15
+
+        async def closer() -> None:
+            try:
+                await transport.disconnect()
+                outcomes["disconnect"] = "ok"
+            except Exception as exc:  # noqa: BLE001
+                outcomes["disconnect"] = exc
+
+        closing = asyncio.ensure_future(closer())
+        await asyncio.sleep(0.05)
+        release.set()
+        done, pending = await asyncio.wait([writing, closing], timeout=60)
+        for task in pending:
+            task.cancel()
+        outcomes["pending"] = len(pending)
+    finally:
+        for peer in peers:
+            peer.close()
+        server.close()
+        await server.wait_closed()
+    ctx.case(("blocked-write-disconnect", ending, seed), sample=case)
+    if not outcomes.get("blocked"):
+        ctx.obs("blocked-write-disconnect:write-never-blocked")
+        return
+    ctx.clause("disconnect-while-a-write-is-blocked")
+    write = outcomes.get("write")
+    if isinstance(write, BaseException) and not is_transport_error(write):
+        ctx.violation("io-error-not-transport-error", f"a write blocked in back-pressure while another task disconnected and "
+                                                      f"then the {ending.replace('-', ' ')}: write raised {type(write).__name__}: "
+                                                      f"{write!s:.80}", case)
+    if isinstance(outcomes.get("disconnect"), BaseException):
+        exc = outcomes["disconnect"]
+        ctx.violation("disconnect-raises", f"disconnect with a blocked write ({ending}) raised {type(exc).__name__}: {exc!s:.80}", case)
+    if outcomes.get("pending"):
+        ctx.obs("blocked-write-disconnect:still-pending-after-60s")
+
+
 def two_loop_backpressure(ctx, n_writers: int, line_size: int, seed: int, loops: int = 2) -> None:
     """The same transport object used in successive sessions that each run under their OWN event loop (an application
     that calls asyncio.run(main(transport)) again after a lost connection); every session has back-pressured concurrent
@@ -1106,6 +1196,8 @@ def run_case(ctx, case: dict) -> None:
                             case.get("disconnect_between", True)))
     elif case.get("engine") == "serial-pty" and not str(case["stream"]).startswith("<"):
         arun(serial_case(ctx, bytes.fromhex(case["stream"]), case["chunks"], case["writes"]))
+    elif case.get("engine") == "blocked-write-disconnect":
+        arun(blocked_write_disconnect_case(ctx, case["ending"], case["seed"]))
     elif case.get("engine") == "stalled-close":
         stalled_close_case(ctx, case["stall_s"], case["total_kib"])
     elif case.get("engine") == "kernel-timeout":
@@ -1200,6 +1292,9 @@ def run(ctx) -> None:
                     stalled_close_case(ctx, stall_s, kib)
             if ctx.shard_index == (4 % ctx.shard_count):
                 arun(kernel_timeout_case(ctx, ctx.seed))
+            for i, ending in enumerate(("peer-resets", "peer-reads", "peer-closes")):
+                if ctx.mine(i + 1):
+                    arun(blocked_write_disconnect_case(ctx, ending, ctx.seed))
             for i in range(ctx.pick(3, 40) // ctx.shard_count + 1):
                 two_loop_backpressure(ctx, rng.choice([3, 5, 8]), rng.choice([2000, 20000, 70000]),
                                       ctx.seed * 100000 + ctx.shard_index * 1000 + 500 + i, loops=rng.choice([2, 2, 3]))
